@@ -973,66 +973,63 @@ func (self *_parser) parseShiftExpression() ast.Expression {
 }
 
 func (self *_parser) parseRelationalExpression() ast.Expression {
+	var left ast.Expression
 	if self.scope.allowIn && self.token == token.PRIVATE_IDENTIFIER {
-		left := &ast.PrivateIdentifier{
+		id := &ast.PrivateIdentifier{
 			Identifier: ast.Identifier{
 				Idx:  self.idx,
 				Name: self.parsedLiteral,
 			},
 		}
 		self.next()
-		if self.token == token.IN {
+		if self.token != token.IN {
+			// a private name is an expression only as the left operand of 'in'
+			self.errorUnexpectedToken(self.token)
+			return &ast.BadExpression{From: id.Idx, To: self.idx}
+		}
+		self.next()
+		left = &ast.BinaryExpression{
+			Operator: token.IN,
+			Left:     id,
+			Right:    self.parseShiftExpression(),
+		}
+	} else {
+		left = self.parseShiftExpression()
+	}
+
+	// the relational operators are left-associative
+	for {
+		tkn := self.token
+		switch tkn {
+		case token.LESS, token.LESS_OR_EQUAL, token.GREATER, token.GREATER_OR_EQUAL:
 			self.next()
-			return &ast.BinaryExpression{
-				Operator: token.IN,
+			left = &ast.BinaryExpression{
+				Operator:   tkn,
+				Left:       left,
+				Right:      self.parseShiftExpression(),
+				Comparison: true,
+			}
+		case token.INSTANCEOF:
+			self.next()
+			left = &ast.BinaryExpression{
+				Operator: tkn,
 				Left:     left,
 				Right:    self.parseShiftExpression(),
 			}
-		}
-		// a private name is an expression only as the left operand of 'in'
-		self.errorUnexpectedToken(self.token)
-		return &ast.BadExpression{From: left.Idx, To: self.idx}
-	}
-	left := self.parseShiftExpression()
-
-	allowIn := self.scope.allowIn
-	self.scope.allowIn = true
-	defer func() {
-		self.scope.allowIn = allowIn
-	}()
-
-	switch self.token {
-	case token.LESS, token.LESS_OR_EQUAL, token.GREATER, token.GREATER_OR_EQUAL:
-		tkn := self.token
-		self.next()
-		return &ast.BinaryExpression{
-			Operator:   tkn,
-			Left:       left,
-			Right:      self.parseRelationalExpression(),
-			Comparison: true,
-		}
-	case token.INSTANCEOF:
-		tkn := self.token
-		self.next()
-		return &ast.BinaryExpression{
-			Operator: tkn,
-			Left:     left,
-			Right:    self.parseRelationalExpression(),
-		}
-	case token.IN:
-		if !allowIn {
+		case token.IN:
+			if !self.scope.allowIn {
+				return left
+			}
+			self.next()
+			left = &ast.BinaryExpression{
+				Operator: tkn,
+				Left:     left,
+				Right:    self.parseShiftExpression(),
+			}
+		default:
 			return left
 		}
-		tkn := self.token
-		self.next()
-		return &ast.BinaryExpression{
-			Operator: tkn,
-			Left:     left,
-			Right:    self.parseRelationalExpression(),
-		}
 	}
-
-	return left
 }
 
 func (self *_parser) parseEqualityExpression() ast.Expression {
